@@ -367,8 +367,7 @@ Proof.
   - eexists. split; [vm_compute; reflexivity|]. split; vm_compute; reflexivity.
 Qed.
 
-(* ================= (c, continued) the remaining typed tags =================
-   Same statement shape as above.  List-valued bodies: every item inside its field widths (wf_<tag>_item), at least one
+(* ================= (c, continued) the remaining typed tags ==========   Same statement shape as above.  List-valued bodies: every item inside its field widths (wf_<tag>_item), at least one
    item (a zero-item body is written as length 0 and comes back as the bare header: S7, covered by entry_rt in
    C14_loop_roundtrip) and at most as many as fit 255 bytes.  Language / country codes are exactly 3 bytes. *)
 
@@ -572,8 +571,7 @@ Proof.
   - exists 2, 0. repeat split; lia.
 Qed.
 
-(* ================= (e, continued) loops mixing ALL tags =================
-   body_rt for the thirteen tags added above (C14_body_roundtrips has the other twelve classes), then the loop theorem
+(* ================= (e, continued) loops mixing ALL tags ==========   body_rt for the thirteen tags added above (C14_body_roundtrips has the other twelve classes), then the loop theorem
    with the domain spelled out: wf_entry d d' = tag a byte, body at most 255 bytes, and either the body is empty and d'
    is the bare header (S7) or typed_rt d d' — the inductive predicate in Proofs/DescRoundTripAll.v whose 25 constructors
    are exactly the hypotheses of the 25 per-class round trips (23 typed tags, unknown, user-defined). *)
@@ -657,8 +655,7 @@ Example C14_teletext_hex_digits :
   = [Ok [Some [20]]; Ok [Some [20]]; Ok [Some [160]]].
 Proof. vm_compute. reflexivity. Qed.
 
-(* ================= (d, continued) reference layouts of the bit-packed tags =================
-   Spec/DescSpec2.v gives the body of each remaining tag as integer arithmetic on the field values (flag * 2^k, field
+(* ================= (d, continued) reference layouts of the bit-packed tags ==========   Spec/DescSpec2.v gives the body of each remaining tag as integer arithmetic on the field values (flag * 2^k, field
    * 2^k, reserved bits 1), written from EN 300 468 6.2 / 6.4 / Annex D and ISO/IEC 13818-1 2.6; the writers of
    Model/Desc.v emit exactly those bytes.  Teletext covers VBI teletext (same body).  With C14_write_bodies and
    C14_write_descriptor (tag, size, body) every one of the 23 typed tags is written as its reference encoding. *)
@@ -703,8 +700,7 @@ Example C14_ref_layout_examples :
   ref_local_time_offset ex_lto = [70; 82; 65; 2; 1; 0; 192; 121; 18; 69; 0; 2; 0].
 Proof. repeat split; vm_compute; reflexivity. Qed.
 
-(* ================= (c, continued) the loop inside a larger buffer =================
-   C14_loop_roundtrip_at_offset: the statement of C14_loop_roundtrip_all_tags for a loop that lies at ANY offset of a
+(* ================= (c, continued) the loop inside a larger buffer ==========   C14_loop_roundtrip_at_offset: the statement of C14_loop_roundtrip_all_tags for a loop that lies at ANY offset of a
    buffer -- arbitrary bytes `pre` before it and `rest` behind it -- with parseDescriptors started at that offset, which
    is how the PMT / SDT / NIT / EIT / TOT parsers call it: the result is the entry-wise parsed form (all 25 classes of
    typed_rt, zero-item bodies as bare headers) and the iterator stops right behind the loop.  The body parsers that
@@ -761,3 +757,77 @@ Proof.
   eexists. split; [vm_compute; reflexivity|]. split; [repeat constructor; cbv; intuition discriminate|].
   vm_compute. reflexivity.
 Qed.
+(* ---- the descriptor loop above is the source ----
+   parse_descriptors -- the 12-bit loop length (bs[0]&0xf)<<8 | bs[1], the `for i.Offset() < offsetEnd` loop, the tag
+   and length bytes, the user-defined range 0x80..0xfe, the switch on the tag with its 24 cases, and the unconditional
+   Seek to the declared end of every descriptor -- is equal, as a computation in the iterator monad and on every iterator
+   whose bytes are in 0..255, to the definition that go/gen (psigen.go) translates from the CURRENT source of
+   parseDescriptors into Gen/PsiGen.v, its 23 Section Variables newDescriptor* instantiated with the body parsers of
+   Model/Desc.v; 21 of those body parsers (all but the extension descriptor's tag switch -- its supplementary-audio body
+   is covered -- and the ISO 639 descriptor, which slice with run-time bounds) and the two BCD duration parsers of dvb.go
+   are regenerated as well and proved equal one by one, item loops and optional bytes included.  The model's loops run
+   on offsetEnd - offset + 1 rounds of fuel, the generated ones on input length + 1: the proofs show that both are enough.
+   An edit of parseDescriptors -- the loop length masked with 0x3, the Seek made conditional, a case dropped -- or of a
+   body parser regenerates Gen/PsiGen.v and this theorem (Proofs/PsiGenDesc.v, PsiGenDesc2.v) stops checking; so does a
+   NextBytes that becomes a NextBytesNoCopy where the model copies the slice because the result retains it (the two have
+   the same meaning in the iterator monad -- aliasing is C16's subject -- but the proof scripts insist on it). *)
+Require Import Model.Dvb Gen.PsiGen Proofs.ParseGenBits Proofs.PsiGenSim Proofs.PsiGenDesc Proofs.PsiGenDesc2.
+Theorem C14_loop_is_source :
+  same_on_bytes parse_descriptors
+    (PsiGen.parseDescriptors
+       new_descriptor_ac3 new_descriptor_avc_video new_descriptor_component new_descriptor_content
+       new_descriptor_data_stream_alignment new_descriptor_enhanced_ac3 new_descriptor_extended_event new_descriptor_extension
+       new_descriptor_iso639 new_descriptor_local_time_offset new_descriptor_maximum_bitrate new_descriptor_network_name
+       new_descriptor_parental_rating new_descriptor_private_data_indicator new_descriptor_private_data_specifier
+       new_descriptor_registration new_descriptor_service new_descriptor_short_event new_descriptor_stream_identifier
+       new_descriptor_subtitling new_descriptor_teletext new_descriptor_unknown new_descriptor_vbi_data) /\
+  (forall e, same_on_bytes (new_descriptor_ac3 e) (PsiGen.newDescriptorAC3 e)) /\
+  same_on_bytes new_descriptor_avc_video PsiGen.newDescriptorAVCVideo /\
+  (forall e, same_on_bytes (new_descriptor_component e) (PsiGen.newDescriptorComponent e)) /\
+  (forall e, same_on_bytes (new_descriptor_content e) (PsiGen.newDescriptorContent e)) /\
+  same_on_bytes new_descriptor_data_stream_alignment PsiGen.newDescriptorDataStreamAlignment /\
+  (forall e, same_on_bytes (new_descriptor_enhanced_ac3 e) (PsiGen.newDescriptorEnhancedAC3 e)) /\
+  same_on_bytes new_descriptor_extended_event PsiGen.newDescriptorExtendedEvent /\
+  (forall e, same_on_bytes (new_descriptor_extension_supplementary_audio e) (PsiGen.newDescriptorExtensionSupplementaryAudio e)) /\
+  (forall e, same_on_bytes (new_descriptor_local_time_offset e)
+               (PsiGen.newDescriptorLocalTimeOffset Model.Dvb.parse_dvb_duration_minutes Model.Dvb.parse_dvb_time e)) /\
+  same_on_bytes new_descriptor_maximum_bitrate PsiGen.newDescriptorMaximumBitrate /\
+  (forall e, same_on_bytes (new_descriptor_network_name e) (PsiGen.newDescriptorNetworkName e)) /\
+  (forall e, same_on_bytes (new_descriptor_parental_rating e) (PsiGen.newDescriptorParentalRating e)) /\
+  same_on_bytes new_descriptor_private_data_indicator PsiGen.newDescriptorPrivateDataIndicator /\
+  same_on_bytes new_descriptor_private_data_specifier PsiGen.newDescriptorPrivateDataSpecifier /\
+  (forall e, same_on_bytes (new_descriptor_registration e) (PsiGen.newDescriptorRegistration e)) /\
+  same_on_bytes new_descriptor_service PsiGen.newDescriptorService /\
+  same_on_bytes new_descriptor_short_event PsiGen.newDescriptorShortEvent /\
+  same_on_bytes new_descriptor_stream_identifier PsiGen.newDescriptorStreamIdentifier /\
+  (forall e, same_on_bytes (new_descriptor_subtitling e) (PsiGen.newDescriptorSubtitling e)) /\
+  (forall e, same_on_bytes (new_descriptor_teletext e) (PsiGen.newDescriptorTeletext e)) /\
+  (forall t l, same_on_bytes (new_descriptor_unknown t l) (PsiGen.newDescriptorUnknown t l)) /\
+  (forall e, same_on_bytes (new_descriptor_vbi_data e) (PsiGen.newDescriptorVBIData e)) /\
+  same_on_bytes Model.Dvb.parse_dvb_duration_minutes PsiGen.parseDVBDurationMinutes /\
+  same_on_bytes Model.Dvb.parse_dvb_duration_seconds PsiGen.parseDVBDurationSeconds.
+Proof. exact descriptor_loop_is_source. Qed.
+Print Assumptions C14_loop_is_source.
+(* the translated parsers run: the written loop of the six-descriptor example above (63 bytes behind the length field:
+   AC-3, teletext, an empty content descriptor, VBI data, local time offset, extended event), decoded by the generated
+   loop with the GENERATED body parsers where they exist, gives what the model gives: six descriptors *)
+Example C14_loop_is_source_inhabited :
+  match enc_descriptors_with_length ex_all with
+  | Ok its =>
+      let bs := bytes_of_items its in
+      andb (bytes_okb bs)
+           (match run_iter (PsiGen.parseDescriptors
+                   PsiGen.newDescriptorAC3 PsiGen.newDescriptorAVCVideo PsiGen.newDescriptorComponent PsiGen.newDescriptorContent
+                   PsiGen.newDescriptorDataStreamAlignment PsiGen.newDescriptorEnhancedAC3 PsiGen.newDescriptorExtendedEvent new_descriptor_extension
+                   new_descriptor_iso639 (PsiGen.newDescriptorLocalTimeOffset PsiGen.parseDVBDurationMinutes Model.Dvb.parse_dvb_time)
+                   PsiGen.newDescriptorMaximumBitrate PsiGen.newDescriptorNetworkName
+                   PsiGen.newDescriptorParentalRating PsiGen.newDescriptorPrivateDataIndicator PsiGen.newDescriptorPrivateDataSpecifier
+                   PsiGen.newDescriptorRegistration PsiGen.newDescriptorService PsiGen.newDescriptorShortEvent PsiGen.newDescriptorStreamIdentifier
+                   PsiGen.newDescriptorSubtitling PsiGen.newDescriptorTeletext PsiGen.newDescriptorUnknown PsiGen.newDescriptorVBIData) bs,
+                  run_iter parse_descriptors bs with
+            | Ok a, Ok b => andb (length a =? 6)%nat (length b =? 6)%nat
+            | _, _ => false
+            end)
+  | _ => false
+  end = true.
+Proof. vm_compute. reflexivity. Qed.
